@@ -206,10 +206,10 @@ func runsIn(sh *shape, st *state) bool {
 func extShapes() []shape {
 	hp := []transaction.Attribute{attrHP}
 	return []shape{
-		{Name: "contract-ua", In: in("preamble", "policy-twice", "contracts", "ub-destroyed"), Spec: func(n *chainx.Node) *txSpec {
+		{Name: "contract-ua", In: in("preamble", "policy-twice", "contracts", "ub-destroyed", "blocked-set"), Spec: func(n *chainx.Node) *txSpec {
 			return &txSpec{Signers: []*acct{sigAcct(1), uaAcct()}, Script: nops(3), SysFee: gas / 10}
 		}},
-		{Name: "contract-ub", In: in("preamble", "ub-destroyed"), Spec: func(n *chainx.Node) *txSpec {
+		{Name: "contract-ub", In: in("preamble", "ub-destroyed", "blocked-set"), Spec: func(n *chainx.Node) *txSpec {
 			return &txSpec{Signers: []*acct{sigAcct(1), ubAcct()}, Script: nops(3), SysFee: gas / 10}
 		}},
 		{Name: "contract-v", In: in("preamble", "contracts"), Spec: func(n *chainx.Node) *txSpec {
@@ -278,6 +278,7 @@ func (rn *runner) extFacts(f *facts) {
 		f.NotaryKeys = keys.PublicKeys{chainx.Acc(st.NotaryAcc).PublicKey()}
 	}
 	extAccts(rn.n, f.Accts, st.Multi)
+	r2Accts(f.Accts)
 	e.out("maxgas-witness", fmt.Sprintf("exec-fee-factor=%d:%s", bc.GetBaseExecFee(), maxGasAccts(rn.n).note))
 	harness := func(what, note string) {
 		e.f.add("sound:state-differs-from-its-history:"+what+":"+st.Name, &caseRec{Sub: "sound", State: st.Name, Note: note})
@@ -301,10 +302,16 @@ func (rn *runner) extFacts(f *facts) {
 	}
 	if x := st.Expect; x != nil {
 		// what the history set last is what admission must use; the getters must say the same
-		if got := bc.FeePerByte(); got != x.FeePerByte {
+		if x.MTB != 0 {
+			if got := bc.GetMaxTraceableBlocks(); got != x.MTB {
+				harness("MaxTraceableBlocks", fmt.Sprintf("getter %d, history set %d", got, x.MTB))
+			}
+			f.MTB = x.MTB
+		}
+		if got := bc.FeePerByte(); x.FeePerByte != 0 && got != x.FeePerByte {
 			harness("FeePerByte", fmt.Sprintf("getter %d, history set %d", got, x.FeePerByte))
 		}
-		if got := bc.GetBaseExecFee(); got != x.ExecFactor {
+		if got := bc.GetBaseExecFee(); x.ExecFactor != 0 && got != x.ExecFactor {
 			harness("ExecFeeFactor", fmt.Sprintf("getter %d, history set %d", got, x.ExecFactor))
 		}
 		if got := bc.GetMaxValidUntilBlockIncrement(); got != x.MaxVUBInc {
@@ -319,7 +326,10 @@ func (rn *runner) extFacts(f *facts) {
 				}
 			}
 		}
-		f.FeePerByte, f.MaxVUBInc = x.FeePerByte, x.MaxVUBInc
+		f.MaxVUBInc = x.MaxVUBInc
+		if x.FeePerByte != 0 {
+			f.FeePerByte = x.FeePerByte
+		}
 	}
 }
 
